@@ -1,6 +1,7 @@
 (* C07  Transfer accounting counts every block position once.  Statements only. *)
 From Coq Require Import List NArith ZArith String Bool.
 From DT Require Import GenStatus GenEvent FsmTypes GenFsm Fsm FsmFacts Caches C07Proofs.
+From DT Require Conc C07Conc.
 Import ListNotations.
 Local Open Scope Z_scope.
 
@@ -71,3 +72,22 @@ Example C07_hypotheses_satisfiable :
   well_shaped 0 [HReport 1; HReport 2; HCrash; HReport 1; HReport 2; HReport 3] /\
   highest 0 [HReport 1; HReport 2; HCrash; HReport 1; HReport 2; HReport 3] = 3.
 Proof. cbn. repeat split; try reflexivity; Lia.lia. Qed.
+
+(* the concurrent clause: for ANY interleaving of the micro-steps of any number of concurrent
+   reporters of one direction of one channel (read-locked lookup, write-locked seed with re-check,
+   atomic load, compare-and-swap, the FSM applying the progress and index events), once all have
+   returned: the byte total is the sum of the reports that advanced the mark, those are unique
+   blocks at pairwise distinct positions above the mark they started from, the mark ends at or
+   above every unique position, and the durable index at the highest position reported *)
+Theorem C07_concurrent_reports_counted_once :
+  forall n reps seed base warm, (base < Conc.two64)%N ->
+  forall sched, let s := Conc.crun n reps (Conc.cinit seed base warm) sched in
+    (forall i, (i < n)%nat -> Conc.is_done (Conc.c_pcs s i) = true) ->
+    Conc.c_tot s = ((base + Conc.sum_if reps (fun i => Conc.done_adv (Conc.c_pcs s i)) n) mod Conc.two64)%N /\
+    (forall i, Conc.done_adv (Conc.c_pcs s i) = true -> Conc.p_unique (reps i) = true /\ (i < n)%nat /\ (C07Conc.m0 seed warm < Conc.p_idx (reps i))%Z) /\
+    (forall i j, i <> j -> Conc.done_adv (Conc.c_pcs s i) = true -> Conc.done_adv (Conc.c_pcs s j) = true -> Conc.p_idx (reps i) <> Conc.p_idx (reps j)) /\
+    (forall m, Conc.c_mark s = Some m -> (C07Conc.m0 seed warm <= m)%Z /\ (forall i, (i < n)%nat -> Conc.p_unique (reps i) = true -> (Conc.p_idx (reps i) <= m)%Z)) /\
+    (forall i, (i < n)%nat -> (Conc.p_idx (reps i) <= Conc.c_dur s)%Z) /\ (seed <= Conc.c_dur s)%Z /\
+    (Conc.c_dur s = seed \/ exists j, (j < n)%nat /\ Conc.p_idx (reps j) = Conc.c_dur s).
+Proof. exact C07Conc.concurrent_reports_counted_once. Qed.
+Print Assumptions C07_concurrent_reports_counted_once.
